@@ -37,19 +37,20 @@ def run_playback(repo_dir, crate, scratch, name_filter, timeout=1200):
 def replay_failed(scratch, r, prop, log=print):
     """r: HResult with status fail. Fills r.replays / r.nonrepro. Returns #reproduced."""
     h = r.h
-    repo_dir = os.path.join(scratch, "repo_rel" if h.cls == "crash" else "repo")
+    repo_dir = os.path.join(scratch, run.repo_sub(h.cls))
     td = os.path.join(scratch, "t_replay")
     if not os.path.isdir(td):
         stage.fresh_target(td)
     logpath = os.path.join(scratch, "replay_%s.log" % h.name)
     res, cerr = run.run_group(repo_dir, h.crate, [h], td, h.cls, logpath,
-                              extra=["-Z", "concrete-playback", "--concrete-playback=print"])
+                              extra=["-Z", "concrete-playback", "--concrete-playback=print"], mem_extra=8)
     txt = open(logpath, errors="replace").read()
     tests = [t for t in extract_tests(txt) if t["fq"] == h.fq and t["kind"] != "cover" and t["name"]]
     want = set(c.desc for c in r.failed)
     sel = [t for t in tests if t["desc"] in want] or tests
     if not sel:
-        r.nonrepro.append("solver gave no concrete values for the failed check(s)")
+        why = "solver error/memory cap during trace generation" if "Status: ERROR" in txt else "no test printed"
+        r.nonrepro.append("solver gave no concrete values for the failed check(s) (%s)" % why)
         return 0
     # one test per distinct failed description is enough
     seen, uniq = set(), []
@@ -101,7 +102,7 @@ def replay_saved(path, log=print):
         hf = os.path.join(hdir, os.path.basename(meta["harness_file"]))
         open(hf, "a").write("\n" + code + "\n")
         repo_dir = os.path.join(scratch, "repo")
-        stage.copy_repo(repo_dir, [hf], release_semantics=(meta.get("cls") == "crash"))
+        stage.copy_repo(repo_dir, [hf], release_semantics=(run.repo_sub(meta.get("cls", "")) == "repo_rel"))
         out = run_playback(repo_dir, meta["crate"], scratch, meta["test"])
         m = re.search(r"^test \S*%s \.\.\. (\w+)" % re.escape(meta["test"]), out, re.M)
         verdict = m.group(1) if m else "missing"
